@@ -43,6 +43,10 @@ def cases(draw):
         calls.append(False)
     case['calls'] = calls
     case['damage'] = draw(st.sampled_from([0, 0, 1, 2, 3]))
+    # an explicit config name (Config(dir, file, name=...)): in name mode the results are stored under it
+    case['root_name'] = draw(st.sampled_from([None, None, None, 'exp_a', 'run.b']))
+    if case.get('root_part'):
+        case['root_name'] = None
     return case
 
 
@@ -60,7 +64,7 @@ def eval_case(case, rec):
         src, tgt = w.root / 'source', w.root / 'target'
         src.mkdir()
         try:
-            mt_name = w.model(parameter_mode=False)
+            mt_name = w.model(parameter_mode=False, root_name=case.get('root_name'))
             mt_par = w.model(parameter_mode=True)
         except model.ModelError as e:
             rec.exclude('model-invalid:' + e.kind)
@@ -71,7 +75,7 @@ def eval_case(case, rec):
         RT.dir_symlink = str(src / 'shared.txt')
         try:
             with hyp.quiet_output():
-                old = build.make_config(case, src, w.cfgdir).chain(parameter_mode=False)
+                old = build.make_config(case, src, w.cfgdir, root_name=case.get('root_name')).chain(parameter_mode=False)
                 for n in mt_name:
                     _ = old.tasks[n].value
         except Exception as e:
@@ -95,7 +99,7 @@ def eval_case(case, rec):
         for ci, dry in enumerate(case['calls']):
             try:
                 with hyp.quiet_output():
-                    config = build.make_config(case, src, w.cfgdir)
+                    config = build.make_config(case, src, w.cfgdir, root_name=case.get('root_name'))
                     migrate_to_parameter_mode(config, tgt, dry=dry, verbose=bool(ci % 2))
             except Exception as e:
                 raise Violation('migration-raised', dict(info, call=ci, dry=dry, error=repr(e)[:300]))
@@ -124,7 +128,7 @@ def eval_case(case, rec):
                 damaged = tree_digest(tgt)
                 try:
                     with hyp.quiet_output():
-                        config = build.make_config(case, src, w.cfgdir)
+                        config = build.make_config(case, src, w.cfgdir, root_name=case.get('root_name'))
                         migrate_to_parameter_mode(config, tgt, dry=True, verbose=False)
                 except (Exception, AssertionError):
                     pass  # the library's size assertion: an accepted answer to an out-of-sync target
@@ -189,6 +193,8 @@ def eval_case(case, rec):
             cl.append('multi-config')
         if case.pop('_damaged', False):
             cl.append('dry-call-on-out-of-sync-target')
+        if case.get('root_name'):
+            cl.append('explicit-config-name')
         if case.get('global_vars'):
             cl.append('global_vars')
         if any(t.ns for t in mt_name.values()):
